@@ -1,0 +1,14 @@
+//go:build verif
+
+// Contracts for the deductive verifier in /verif (govc). Only compiled with -tags verif.
+
+package randutil
+
+// Assumed (T5): math/rand.Int63n(n) returns a value in [0, n) for n > 0 (and panics otherwise);
+// reseeding the generator is not visible to callers.
+
+//@ func RandomDuration
+//@   trusted
+//@   assigns nothing
+//@   requires d > 0
+//@   ensures 0 <= result && result < d
